@@ -128,6 +128,25 @@ PLAN = {
         ],
         "require_counters": {"all": ["add_vars", "make_node_calls"]},
     },
+    "C10": {
+        "level": "exploration",
+        "exhaustive": True,
+        "rule": "scalar layer: every ordered pair of 32 I64 values (0,1,-1,2,3,-7,MIN,MAX,MIN+1,MAX-1,+-inf,NaN,random) and 42 F64 "
+                "values (-0.0, subnormals, +-MAX, +-inf, NaN payloads) x add/sub/mul/div (NumberBase and std operators), cmp/eq/hash, "
+                "is_zero/one/nan, parse round trip, against i128 / IEEE reference arithmetic. Diagram layer: all 625x625 I64 and "
+                "256x256 F64 function pairs over 2 variables x 6 operators in varying order on one manager (every operator follows every "
+                "other on the same operands), both orders, threads 1/4, caches 2..4096; constants; random histories over 1..4 variables "
+                "with min->max, add->sub, 0-g, g-0, 1*g, g/1, swapped operands, ite, restrict; canonicity; node_count; structural audit; "
+                "gc frees inner nodes AND terminals exactly; terminal/inner capacity exhaustion returns OutOfMemory. distinct = distinct "
+                "(type, operator, operand tables) with non-constant result.",
+        "assumptions": ["ite with a non-0/1 condition is documented as unspecified and never issued", "MTBDD apply is single-threaded upstream"],
+        "jobs": [
+            {"monitor": "c10_scalar", "variant": "rel", "shards": 16},
+            {"monitor": "c10_dd", "variant": "rel", "shards": 16},
+            {"monitor": "c10_dd", "variant": "dbg", "shards": 16, "tiers": ("thorough",)},
+        ],
+        "require_counters": {"all": ["pairs", "histories"]},
+    },
     "C11": {
         "level": "exploration",
         "exhaustive": True,
@@ -198,6 +217,15 @@ PLAN = {
 HOOK_COMMITS = []
 
 MANIFEST_TEXT = {
+    "C10": {
+        "text": "Held on every executed case: all scalar boundary pairs for both terminal types against exact reference arithmetic; "
+                "all function pairs over 2 variables from a 5-value palette under all six operators interleaved on one manager; random "
+                "histories with operator mixes on the same operands; canonicity, exact collection of nodes and terminals, capacity "
+                "exhaustion of the terminal table.",
+        "design_ref": "DESIGN.md section 5 / C10",
+        "note": "Trusted: i128 / IEEE-754 reference arithmetic and the value-table interpreter in harness/src/mon/c10.rs.",
+        "technique": "runtime monitoring: value-table reference model over exhaustive 2-variable pairs + seeded histories",
+    },
     "C11": {
         "text": "Held on every executed case: complete for one variable (all functions, pairs, ite triples), all 19683 two-variable "
                 "functions built under both orders with sampled operand tuples, against literal three-valued truth tables and an "
